@@ -80,10 +80,25 @@ def temp_program(rng):
                "int": [("assign", ("var", "v"), "=", ("int", 99)), ("assign", ("var", "v"), "+=", ("int", 5)), ("incr", "v", "++"), ("assign", ("var", "v"), "*=", ("int", 2))],
                "bool": [("assign", ("var", "v"), "=", ("un", "!", ("var", "v")))],
                "vec": [("assign", ("var", "v"), "=", ("vec", [("int", 9)])), ("assign", ("var", "v"), "=", ("vec", []))]}[typ]
-        inner = [(kw, "v", init), rng.choice(mut)]
-        if rng.random() < 0.4:
-            inner.append(rng.choice(mut))
-        inner.append(("print", ("var", "v")))
+        if rng.random() < 0.3:
+            # the copy is made by a container: push_back(p) / [p] must copy p as well, whatever p was bound to
+            how = rng.choice(["push", "push_fn", "literal", "push_capture"])
+            first = {"push": [("decl", "c", ("vec", [])), ("expr", ("mcall", ("var", "c"), "push_back", [("var", "p")]))],
+                     "push_capture": [("decl", "cl", ("lambda", ["p"], [], [("return", ("var", "p"))])), ("decl", "c", ("vec", [])),
+                                      ("expr", ("mcall", ("var", "c"), "push_back", [("call", "cl", [])]))],
+                     "push_fn": [("decl", "c", ("vec", [])), ("expr", ("mcall", ("var", "c"), "push_back", [("call", "idt", [("var", "p")])]))],
+                     "literal": [("decl", "c", ("vec", [("var", "p")]))]}[how]
+            elem = ("index", ("var", "c"), ("int", 0))
+            emut = {"str": [("assign", elem, "=", ("str", "xyz")), ("assign", elem, "+=", ("str", "q"))],
+                    "int": [("assign", elem, "=", ("int", 99)), ("assign", elem, "+=", ("int", 5)), ("assign", elem, "*=", ("int", 2))],
+                    "bool": [("assign", elem, "=", ("bool", True)), ("assign", elem, "=", ("bool", False))],
+                    "vec": [("assign", elem, "=", ("vec", [("int", 9)])), ("assign", elem, "=", ("vec", []))]}[typ]
+            inner = first + [rng.choice(emut), ("print", ("var", "c"))]
+        else:
+            inner = [(kw, "v", init), rng.choice(mut)]
+            if rng.random() < 0.4:
+                inner.append(rng.choice(mut))
+            inner.append(("print", ("var", "v")))
         shape = rng.randrange(5)
         if shape == 0:
             body = inner
